@@ -5,6 +5,7 @@ from .. import core, lmm
 class C18(core.Prop):
     id = "C18"
     drivers = ["lmm_driver"]
+    ready = True
     technique = "stateful property-based testing: concurrency invariants checked on internal state after every operation, plus SimGrid own check_concurrency()"
     sizes = {"quick": 15000, "thorough": 400000}
     rule = ("C15 histories with concurrency limits 1..4 on most constraints and many enable/suspend/free operations. After EVERY operation: the "
